@@ -46,11 +46,13 @@ def run_continuity(sc: dict[str, Any]) -> dict[str, Any]:
         # without Retry-After) a number of times in a row, or fails at the transport level
         tune = {{'server': 'watching__server_timeout', 'client': 'watching__client_timeout', 'inactivity': 'watching__inactivity_timeout'}[k]: v
                 for k, v in (sc.get('timeouts') or {}).items()}
-        op = sim.operator('op1', reg, sim.settings(watching__reconnect_backoff=1, networking__error_backoffs=(1, 1), **tune))
+        base_tune = dict(watching__reconnect_backoff=1, networking__error_backoffs=(1, 1))
+        base_tune.update(sc.get('tune') or {})
+        op = sim.operator('op1', reg, sim.settings(**base_tune, **tune))
         sim.srv.rv = sc.get('rv0', 100)
         rf = {int(k): v for k, v in (sc.get('reqfaults') or {}).items()}
         nreq = {'n': 0, 'left': 0, 'what': None}
-        if rf:
+        if rf or sc.get('arms'):
             from sim.fakek8s import Fault, Plan
 
             def policy(req):
@@ -64,7 +66,7 @@ def run_continuity(sc: dict[str, Any]) -> dict[str, Any]:
                     nreq['left'] -= 1
                     w = nreq['what']
                     return Plan(fault=Fault('status', 429, retry_after=2) if w == '429ra' else Fault('status', 429) if w == '429'
-                                else Fault('status', 503) if w == '503' else Fault(w))
+                                else Fault('status', 503) if w == '503' else Fault('status', 404) if w == '404' else Fault(w))
                 return None
             sim.srv.policy = policy
         x = {o: 0 for o in OBJS}
@@ -87,6 +89,10 @@ def run_continuity(sc: dict[str, Any]) -> dict[str, Any]:
                 sim.delete(a[0])
             elif opn in ('eof', 'conn', 'payload'):
                 for w in things_watches(): w.end(opn)
+            elif opn == 'compact':
+                sim.srv.compact(sim.things)
+            elif opn == 'arm':           # the next attempt of a list / watch request of the handled kind fails this way
+                nreq['what'], nreq['left'] = a[0], 1
             elif opn == 'gone410':
                 sim.srv.compact(sim.things)
                 for w in things_watches(): w.end('eof')
@@ -278,6 +284,41 @@ def run_crdmod(sc: dict[str, Any]) -> dict[str, Any]:
         sim.close()
 
 
+def tlc_scenarios(seed: int, num: int, depth: int = 90) -> list[dict[str, Any]]:
+    """Leg C: behaviours drawn by TLC (-simulate on Sim_Streaming: the watcher model closed with a server) turned into scenarios: the
+    environment's choices of the behaviour (changes, compaction, request faults, connection ends, bookmarks, odd lines) at their
+    instants, under the configuration TLC chose; what the real operator does with them is validated like every other run."""
+    from vf import tlaval
+    scratch = tempfile.mkdtemp(prefix='vf-simst-')
+    out = []
+    try:
+        tlc.run('Sim_Streaming', 'Sim_Streaming.cfg', workers=1, simulate=f'file={scratch}/tr,num={num}', depth=depth, seed=seed, timeout=600)
+        for fn in sorted(f for f in os.listdir(scratch) if f.startswith('tr_')):
+            text = open(os.path.join(scratch, fn)).read()
+            hm = list(re.finditer(r'/\\ hist = (<<.*?>>)\n/\\', text, re.S))
+            cm = list(re.finditer(r'/\\ conf = (\[[^\]]*\])', text))
+            if not hm or not cm:
+                continue
+            hist = tlaval.parse(hm[-1].group(1)); conf = tlaval.parse(cm[-1].group(1))
+            env = []
+            for (t, a, x) in hist:
+                if a == 'edit': env.append((t, 'edit', OBJS[len(env) % 3]))
+                elif a == 'fail': env.append((t, 'arm', x))
+                elif a in ('compact', 'eof', 'conn', 'bookmark', 'weird', 'fatal'): env.append((t, a))
+            if not env:
+                continue
+            sc = {'id': f'tlc-{seed}-{fn}', 'env': env, 'end': max(e[0] for e in env) + 25, 'rv0': 98, 'arms': True, 'from_tlc': True,
+                  'tune': {'watching__reconnect_backoff': int(conf['backoff']), 'networking__error_backoffs': tuple(int(b) for b in conf['eb'])}}
+            to = {}
+            if conf['cli']: to['client'] = int(conf['cli'])
+            if conf['ina']: to['inactivity'] = int(conf['ina'])
+            if to: sc['timeouts'] = to
+            out.append(sc)
+        return out
+    finally:
+        shutil.rmtree(scratch, ignore_errors=True)
+
+
 def gen_crdmod(seed: int, n: int) -> list[dict[str, Any]]:
     rnd = random.Random(f'crdmod-{seed}')
     out = [{'id': 'crdmod-crafted', 'env': [(10, 'check'), (12, 'v2add'), (22, 'check'), (24, 'catdel'), (34, 'check'), (36, 'v2del'), (46, 'check'), (48, 'catadd')], 'end': 60}]
@@ -397,7 +438,9 @@ def run(ctx, rep) -> None:
     if rn.ok or ('invariant', 'SinceNeverAhead') not in rn.violated:
         raise MachineryFailure(f'MC_Streaming_neg did not violate SinceNeverAhead: {rn.violated}')
     rep.extra['negative_config_streaming'] = 'MC_Streaming_neg (after a 410 the watch resumes from the version the server names instead of re-listing): SinceNeverAhead violated'
-    cont = gen_continuity(ctx.seed, 150 if ctx.quick else 4000)
+    tlcs = tlc_scenarios(ctx.seed + 1, 40 if ctx.quick else 800)
+    rep.extra['tlc_generated_histories'] = len(tlcs)
+    cont = gen_continuity(ctx.seed, 150 if ctx.quick else 4000) + tlcs
     cov = gen_coverage(ctx.seed, 60 if ctx.quick else 1500)
     with ProcessPoolExecutor(16) as ex:
         traces = (list(ex.map(run_continuity, cont, chunksize=4)) + list(ex.map(run_coverage, cov, chunksize=2))
